@@ -56,6 +56,79 @@ fn json_chunks(ops: &[String]) -> Vec<String> {
 
 type Outcome = Result<Vec<String>, String>;
 
+// ---- lossless factoring of the emitted texts (decoded again by Corr.v: decode_text) ----
+// A runtime document is `{"kind":"Document","definitions":[` D1 `,` D2 … `]}`; the same definition objects
+// recur in many chunks of one case, so a case carries each distinct piece once (table) and every text as a
+// list of indices.  The split is verified here (re-assembly must give back the exact text), otherwise the
+// text is carried raw; nothing is trusted about it.
+const TEXT_PREFIX: &str = "{\"kind\":\"Document\",\"definitions\":[";
+const TEXT_SUFFIX: &str = "]}";
+fn split_pieces(text: &str) -> Option<Vec<&str>> {
+    let inner = text.strip_prefix(TEXT_PREFIX)?.strip_suffix(TEXT_SUFFIX)?;
+    let mut pieces = vec![];
+    let (mut depth, mut in_str, mut esc, mut start) = (0i32, false, false, 0usize);
+    for (i, c) in inner.char_indices() {
+        if in_str {
+            if esc { esc = false; } else if c == '\\' { esc = true; } else if c == '"' { in_str = false; }
+            continue;
+        }
+        match c {
+            '"' => in_str = true,
+            '{' | '[' => depth += 1,
+            '}' | ']' => depth -= 1,
+            ',' if depth == 0 => { pieces.push(&inner[start..i]); start = i + 1; }
+            _ => {}
+        }
+    }
+    if !inner.is_empty() { pieces.push(&inner[start..]); }
+    let re = format!("{}{}{}", TEXT_PREFIX, pieces.join(","), TEXT_SUFFIX);
+    if re == text { Some(pieces) } else { None }
+}
+#[derive(Default)]
+struct Table { pieces: Vec<String>, index: HashMap<String, usize> }
+impl Table {
+    fn text(&mut self, text: &str) -> String {
+        match split_pieces(text) {
+            Some(ps) => {
+                let idx: Vec<usize> = ps.iter().map(|p| {
+                    if let Some(i) = self.index.get(*p) { *i } else { let i = self.pieces.len(); self.pieces.push(p.to_string()); self.index.insert(p.to_string(), i); i }
+                }).collect();
+                format!("(TPieces {})", coq_list(&idx, |i| coq_n(*i as u64)))
+            }
+            None => format!("(TRaw {})", coq_text(text)),
+        }
+    }
+    fn outcome(&mut self, o: &Outcome) -> String {
+        match o {
+            Ok(ts) => { let v: Vec<String> = ts.iter().map(|t| self.text(t)).collect(); format!("(OOk {})", coq_list(&v, |s| s.clone())) }
+            Err(m) => format!("(OPanic {})", coq_str(m)),
+        }
+    }
+}
+/// a long text as a Coq `str`: scalar values in chunks of 400 joined by ++ (very long list literals overflow coqc's stack)
+fn coq_text(s: &str) -> String {
+    let cs: Vec<u32> = s.chars().map(|c| c as u32).collect();
+    if cs.len() <= 400 { return coq_str(s); }
+    let parts: Vec<String> = cs.chunks(400).map(|ch| {
+        let st: String = ch.iter().map(|c| char::from_u32(*c).unwrap()).collect();
+        coq_str(&st)
+    }).collect();
+    format!("({})", parts.join(" ++ "))
+}
+/// positions are irrelevant to every function of C12/Model.v; they are replaced by one constant to keep case files small
+fn strip_positions(term: &str) -> String {
+    let mut out = String::with_capacity(term.len());
+    let mut rest = term;
+    while let Some(i) = rest.find("(mkPos ") {
+        out.push_str(&rest[..i]);
+        let j = rest[i..].find(')').unwrap();
+        out.push_str("p_");
+        rest = &rest[i + j + 1..];
+    }
+    out.push_str(rest);
+    out
+}
+
 fn run_js(doc: &OperationDocument, opts: OperationJSPrinterOptions) -> Result<Vec<String>, String> {
     catch(AssertUnwindSafe(|| {
         let mut rec = Rec::default();
@@ -64,12 +137,6 @@ fn run_js(doc: &OperationDocument, opts: OperationJSPrinterOptions) -> Result<Ve
     }))
 }
 
-fn coq_outcome(o: &Outcome) -> String {
-    match o {
-        Ok(ts) => format!("(OOk {})", coq_list(ts, |t| coq_str(t))),
-        Err(m) => format!("(OPanic {})", coq_str(m)),
-    }
-}
 
 // ------------------------------------------------------------------ fixed schema for synthetic documents
 
@@ -486,8 +553,13 @@ impl<'a> Ctx<'a> {
         // known-finding classes this case belongs to
         let mut classes: Vec<&str> = vec![];
         if accepted && js.is_err() { classes.push("accepted-document-unspread-fragment-undefined-spread-panic"); }
-        let term = format!("CDoc {} {} {} {} {} {}", coq_bool(accepted), ast_coq::opdoc(doc), coq_outcome(&js),
-            coq_opt(&ts, coq_outcome), coq_str(&whole), coq_list(&names, |ns| coq_list(ns, |n| coq_str(n))));
+        let emitted: usize = js.as_ref().map(|v| v.iter().map(|s| s.len()).sum()).unwrap_or(0);
+        if whole.len() > 40_000 || emitted > 400_000 { self.bump("skipped_too_large_for_coqc"); return; }
+        let mut table = Table::default();
+        let (js_t, ts_t, whole_t) = (table.outcome(&js), ts.as_ref().map(|o| table.outcome(o)), table.text(&whole));
+        let term = format!("CDoc {} {} {} {} {} {} {}", coq_bool(accepted), strip_positions(&ast_coq::opdoc(doc)),
+            coq_list(&table.pieces, |p| coq_text(p)), js_t,
+            coq_opt(&ts_t, |s| s.clone()), whole_t, coq_list(&names, |ns| coq_list(ns, |n| coq_str(n))));
         let short = |o: &Outcome| match o { Ok(ts) => json!({"ok": ts}), Err(m) => json!({"panic": m}) };
         self.cases.push(term, json!({"stream": stream, "document": text, "ast_edited": edited, "accepted_by_check": accepted,
             "js": short(&js), "ts": ts.as_ref().map(short), "whole": whole, "fragment_names": names, "classes": classes}));
